@@ -992,6 +992,10 @@ def str_method(ex, st, fi, o, name, args, kw, line):
         if isinstance(v, TokList):
             n = v.length()
             st.assume(Implies(zint(n) == 0, res.ln == 0))
+        if isinstance(v, GenExp) and len(v.node.generators) == 1:
+            src_l = ex.ev1(v.node.generators[0].iter, st, fi)
+            if isinstance(src_l, TokList):
+                st.assume(Implies(zint(src_l.length()) == 0, res.ln == 0))
         yield st, res
     elif name == 'replace':
         res = fresh_seq('str', 'replace', st.assume)
@@ -1003,6 +1007,8 @@ def str_method(ex, st, fi, o, name, args, kw, line):
         yield st, SSeq(sym.fresh_arr('bytes'), n, 'ilist')
     elif name == 'copy':
         yield st, o
+    elif name == 'format':
+        yield st, fresh_seq('str', 'formatted', st.assume)
     else:
         raise Unsupported('str.%s at %d' % (name, line))
 
@@ -1109,6 +1115,25 @@ def dict_method(ex, st, fi, d, name, args, kw, line):
         g = GuardedState(st, present)
         v = ex.dict_get(d, k, g, line, check=False)
         mv = merge_pair(ex, present, v, dflt, st)
+        if mv is NotImplemented and isinstance(dflt, TokList) and \
+                not dflt.segs:
+            # d.get(k, []): the stored list, or an empty one
+            isn = False
+            lv = v
+            if isinstance(v, OptVal):
+                isn, lv = v.isnone, v.val
+            if isinstance(lv, TokList):
+                segs = []
+                for sg in lv.segs:
+                    if isinstance(sg, Single):
+                        segs.append(Many(Ite(present, 1, 0),
+                                         (lambda s1, o=sg.obj: o), False,
+                                         'get'))
+                    else:
+                        segs.append(Many(Ite(present, sg.ln, 0), sg.mk,
+                                         sg.fresh, sg.label, sg.indexed))
+                res = TokList(segs)
+                mv = res if isn is False else OptVal(And(present, isn), res)
         if mv is NotImplemented:
             raise Unsupported('dict.get merge at %d' % line)
         yield st, mv
